@@ -6,11 +6,23 @@
    model whose invariants are the laws) and Lib_Trace.tla (validation of calls
    recorded from the implementation).
 
-   Scalars are tagged records [k |-> "int" | "dec" | "str", v |-> n]:
-     "int"  v is the integer,
+   Scalars are tagged records.  The compact kinds [k |-> "int" | "dec" | "str", v |-> n]:
+     "int"  v is the integer (|v| < 2^30),
      "dec"  v is TWICE the decimal (half units: 1.0 is v = 2, 2.5 is v = 5),
-     "str"  v is the code of a one-letter string ('a' = 1, 'b' = 2 ...; the
+     "str"  v is the code of a one-letter string ('a' = 1 ... 'd' = 4; the
             order of the codes is the order of the strings).
+   The wide kinds (round 3: every number and every string of the language):
+     "bint"  [big |-> limbs]          an integer of any size (BigInt limbs),
+     "bdec"  [num |-> limbs, e |-> k] the decimal num / 2^k EXACTLY (every
+             finite double is such a dyadic rational: 2^53 + 2 as a decimal,
+             2^-41, the double nearest to 0.1),
+     "text"  [cp |-> <<code points>>] a string of any length, ordered
+             lexicographically by code point ('' < 'A' < 'Ab' < 'a' < 'aB').
+   QV(x) is the exact value of a number; Equal and Lt on numbers are the
+   comparisons of these exact values, whatever the kinds: 2^53 + 1 (an int) is
+   NOT Equal to the decimal 2^53 although the nearest double of the int is that
+   decimal.  On compact numbers both are computed on the half units (Lib.tla,
+   WideLaws, proves the two computations agree).
    1 and 1.0 are Equal (the language's ==), so they are one element of a set.
    A nested list is [k |-> "list", items |-> <<...>>].
    Collections are sequences; a set value is a sequence without Equal
@@ -18,23 +30,87 @@
    the mathematical set of equality classes.
    Exact numeric results are rationals [n |-> numerator, d |-> denominator],
    d > 0, not necessarily reduced.                                          *)
-EXTENDS Integers, Sequences, FiniteSets, TLC
+EXTENDS Integers, Sequences, FiniteSets, TLC, BigInt
 
 I(n) == [k |-> "int", v |-> n]
 D(h) == [k |-> "dec", v |-> h]          \* h halves
 S(c) == [k |-> "str", v |-> c]
 L(s) == [k |-> "list", items |-> s]
+BI(x)     == [k |-> "bint", big |-> x]             \* x a BigInt
+BD(x, e)  == [k |-> "bdec", num |-> x, e |-> e]    \* x / 2^e
+T(cp)     == [k |-> "text", cp |-> cp]
 
-IsNum(x)  == x.k \in {"int", "dec"}
+IsWide(x) == x.k \in {"bint", "bdec"}
+IsNum(x)  == x.k \in {"int", "dec", "bint", "bdec"}
+IsStr(x)  == x.k \in {"str", "text"}
 IsList(x) == x.k = "list"
-Num2(x)   == IF x.k = "int" THEN 2 * x.v ELSE x.v       \* twice the value
+Num2(x)   == IF x.k = "int" THEN 2 * x.v ELSE x.v       \* twice the value (compact numbers)
 
-\* the language's == on scalars: numeric across int/dec, otherwise same kind
-Equal(a, b) == IF IsNum(a) /\ IsNum(b) THEN Num2(a) = Num2(b)
-               ELSE a.k = b.k /\ a.k = "str" /\ a.v = b.v
+-----------------------------------------------------------------------------
+(* Exact values: dyadic rationals [num |-> BigInt, e |-> k] = num / 2^k. *)
+BTwo == FromInt(2)
+P2B(k) == Pow(BTwo, k)                                  \* 2^k as a BigInt
+QQ(x, e) == [num |-> x, e |-> e]
+QV(x) == CASE x.k = "int"  -> QQ(FromInt(x.v), 0)
+           [] x.k = "dec"  -> QQ(FromInt(x.v), 1)
+           [] x.k = "bint" -> QQ(x.big, 0)
+           [] x.k = "bdec" -> QQ(x.num, x.e)
+\* numerators over the common denominator 2^max(e)
+QUp(p, m) == IF m = p.e THEN p.num ELSE Mul(p.num, P2B(m - p.e))
+MaxI(a, b) == IF a >= b THEN a ELSE b
+QCmp(p, q) == LET m == MaxI(p.e, q.e) IN Cmp(QUp(p, m), QUp(q, m))       \* -1 / 0 / 1
+QAdd(p, q) == LET m == MaxI(p.e, q.e) IN QQ(Add(QUp(p, m), QUp(q, m)), m)
+QNeg(p)    == QQ(Neg(p.num), p.e)
+QSub(p, q) == QAdd(p, QNeg(q))
+QMul(p, q) == QQ(Mul(p.num, q.num), p.e + q.e)
+QAbs(p)    == QQ(Abs(p.num), p.e)
+QScale(p, c) == QQ(Mul(p.num, c), p.e)                   \* p * c, c a BigInt
+QZero == QQ(Zero, 0)
+QOne  == QQ(One, 0)
+IsEvenB(x) == x.sg = 0 \/ x.mag[1] % 2 = 0              \* the base 10^4 is even
+HalfB(x)   == DivModSmall(x, 2).q
+\* lowest terms: e = 0 or num odd
+RECURSIVE QNorm(_)
+QNorm(p) == IF p.e > 0 /\ IsEvenB(p.num) THEN QNorm(QQ(HalfB(p.num), p.e - 1)) ELSE p
+\* a double holds 53 significant bits: num / 2^e is a double iff the odd part
+\* of num is below 2^53 (the exponent range of doubles is not reached here)
+RECURSIVE OddPart(_)
+OddPart(x) == IF x.sg # 0 /\ IsEvenB(x) THEN OddPart(HalfB(x)) ELSE x
+P53 == P2B(53)
+Rep53(p) == Less(Abs(OddPart(p.num)), P53)
 
-\* canonical representative of the Equal-class of x
-Class(x) == IF IsNum(x) THEN [k |-> "num", v |-> Num2(x)] ELSE x
+\* strings: the code points ('a' = 97 is the compact code 1)
+Cps(x) == IF x.k = "str" THEN <<96 + x.v>> ELSE x.cp
+RECURSIVE LexLessAt(_, _, _)
+LexLessAt(s, t, i) == IF i > Len(s) THEN i <= Len(t)             \* a proper prefix comes first
+                      ELSE IF i > Len(t) THEN FALSE
+                      ELSE IF s[i] # t[i] THEN s[i] < t[i]
+                      ELSE LexLessAt(s, t, i + 1)
+LexLess(s, t) == LexLessAt(s, t, 1)
+
+\* the language's == on scalars: numeric across int/dec (the exact values),
+\* strings by their characters, nothing else
+Equal(a, b) == IF IsNum(a) /\ IsNum(b)
+               THEN (IF IsWide(a) \/ IsWide(b) THEN QCmp(QV(a), QV(b)) = 0 ELSE Num2(a) = Num2(b))
+               ELSE IsStr(a) /\ IsStr(b) /\ Cps(a) = Cps(b)
+
+\* the language's < on two numbers or on two strings
+Lt(a, b) == IF IsNum(a) /\ IsNum(b)
+            THEN (IF IsWide(a) \/ IsWide(b) THEN QCmp(QV(a), QV(b)) < 0 ELSE Num2(a) < Num2(b))
+            ELSE IsStr(a) /\ IsStr(b) /\ LexLess(Cps(a), Cps(b))
+
+\* canonical representative of the Equal-class of x: compact numbers by their
+\* half units, other numbers in lowest terms (and compact again when the value
+\* is one of the compact ones), strings by their code points
+FitsCompact(q) == q.e <= 1 /\ Len(q.num.mag) <= 2
+Class(x) == IF IsNum(x)
+            THEN (IF ~IsWide(x) THEN [k |-> "num", v |-> Num2(x)]
+                  ELSE LET q == QNorm(QV(x)) IN
+                       IF FitsCompact(q)
+                       THEN [k |-> "num", v |-> (IF q.e = 0 THEN 2 ELSE 1) * ToInt(q.num)]
+                       ELSE [k |-> "q", num |-> q.num, e |-> q.e])
+            ELSE IF IsStr(x) THEN [k |-> "text", cp |-> Cps(x)]
+            ELSE x
 
 Range1(s)  == {s[i] : i \in 1..Len(s)}
 Members(s) == {Class(s[i]) : i \in 1..Len(s)}
@@ -159,6 +235,114 @@ MedianHighKey(s) == Key(Sorted(s)[Len(s) \div 2 + 1])
 \* "mean of the middle two": the value as a rational (numeric lists only)
 Median(s) == Rat(MedianLowKey(s) + MedianHighKey(s), 4)
 KeyRat(key) == Rat(key, 2)                                   \* numeric key -> value
+
+-----------------------------------------------------------------------------
+(* The same functions on every number and every string (wide kinds included):
+   exact dyadic rationals in limbs; the order statistics as ELEMENTS (compared
+   up to Equal: which of 1 and 1.0 is returned is not stated). *)
+AllIntX(s) == \A i \in 1..Len(s) : s[i].k \in {"int", "bint"}
+AnyWide(s) == \E i \in 1..Len(s) : IsWide(s[i])
+AllNum(s)  == \A i \in 1..Len(s) : IsNum(s[i])
+AllStr(s)  == \A i \in 1..Len(s) : IsStr(s[i])
+
+\* left-to-right sums / products: f[j] is the value after the first j elements
+SumQ(s)    == LET f[j \in 0..Len(s)] == IF j = 0 THEN QZero ELSE QAdd(f[j - 1], QV(s[j])) IN f[Len(s)]
+AbsSumQ(s) == LET f[j \in 0..Len(s)] == IF j = 0 THEN QZero ELSE QAdd(f[j - 1], QAbs(QV(s[j]))) IN f[Len(s)]
+ProdQ(s)   == LET f[j \in 0..Len(s)] == IF j = 0 THEN QOne ELSE QMul(f[j - 1], QV(s[j])) IN f[Len(s)]
+
+(* When is the double arithmetic of a left-to-right sum EXACT?  Every
+   operation of IEEE arithmetic returns the exact result when that result is
+   a double.  So: all elements ints (host integers, always exact), or every
+   element and every prefix sum is a double.  Then sum(s) must equal SumQ(s)
+   to the last bit - whatever the magnitude (sum([2^-41]) is 2^-41, not 0.0).
+   Otherwise the result is compared with a tolerance (IEEE accuracy is not the
+   subject of the property).                                                *)
+ExactSum(s) ==
+  \/ AllIntX(s)
+  \/ /\ \A i \in 1..Len(s) : Rep53(QV(s[i]))
+     /\ LET f[j \in 0..Len(s)] == IF j = 0 THEN QZero ELSE QAdd(f[j - 1], QV(s[j]))
+        IN \A i \in 1..Len(s) : Rep53(f[i])
+ExactProd(s) ==
+  \/ AllIntX(s)
+  \/ /\ \A i \in 1..Len(s) : Rep53(QV(s[i]))
+     /\ LET f[j \in 0..Len(s)] == IF j = 0 THEN QOne ELSE QMul(f[j - 1], QV(s[j]))
+        IN \A i \in 1..Len(s) : Rep53(f[i])
+
+\* mean = sum / length: exact when the sum is, is a double, and the quotient is a double
+\* (the odd part of the length divides the numerator)
+RECURSIVE OddPartN(_)
+OddPartN(n) == IF n % 2 = 0 THEN OddPartN(n \div 2) ELSE n
+RECURSIVE TwoExpN(_)
+TwoExpN(n) == IF n % 2 = 0 THEN 1 + TwoExpN(n \div 2) ELSE 0
+MeanDyadic(s) == DivModSmall(QNorm(SumQ(s)).num, OddPartN(Len(s))).r = 0
+\* the mean as a dyadic rational (only when MeanDyadic)
+MeanQ(s) == LET q == QNorm(SumQ(s))
+            IN QQ(DivModSmall(q.num, OddPartN(Len(s))).q, q.e + TwoExpN(Len(s)))
+ExactMean(s) == ExactSum(s) /\ Rep53(SumQ(s)) /\ MeanDyadic(s) /\ Rep53(MeanQ(s))
+
+\* order statistics: lists of numbers or lists of strings, s non-empty
+SortedX(s)   == SortSeq(s, Lt)
+MinEl(s)     == SortedX(s)[1]
+MaxEl(s)     == SortedX(s)[Len(s)]
+MedLowEl(s)  == SortedX(s)[(Len(s) + 1) \div 2]
+MedHighEl(s) == SortedX(s)[Len(s) \div 2 + 1]
+\* median of numbers: the middle element, or half the sum of the middle two
+MedianSumQ(s) == QAdd(QV(MedLowEl(s)), QV(MedHighEl(s)))              \* TWICE the median
+ExactMedian(s) == Len(s) % 2 = 1 \/
+                  (Rep53(QV(MedLowEl(s))) /\ Rep53(QV(MedHighEl(s))) /\ Rep53(MedianSumQ(s)))
+
+-----------------------------------------------------------------------------
+(* pow on ints, on its whole domain: the exponent is a BigInt as well
+   (pow(1, 2^70), pow(-1, 2^70 + 1), pow(0, 2^70) have small results). *)
+PowX(a, kb) ==
+  IF kb.sg = 0 THEN One
+  ELSE IF a.sg = 0 THEN Zero
+  ELSE IF a = One THEN One
+  ELSE IF a = Neg(One) THEN (IF IsEvenB(kb) THEN One ELSE Neg(One))
+  ELSE Pow(a, ToInt(kb))                   \* |a| >= 2: the exponent is a TLC integer
+
+(* Powers too long to be multiplied out by TLC within the time of a check
+   (2^65536 has 4 932 limbs) are validated through NECESSARY conditions that
+   are linear in the length of the result:
+     - the residues modulo a dozen pairwise coprime moduli (CRT: the result
+       is determined modulo their product, about 10^47),
+     - the sign, and the bracket of its length,
+     - powers of ten exactly (zero limbs below one limb 1, 10, 100 or 1000). *)
+PowModuli == <<9973, 9967, 9949, 9941, 9931, 9929, 9923, 9907, 9901, 9887, 9883, 9871>>   \* primes
+\* m mod d for a magnitude, d in 1..9999 (t < 10^8: inside TLC's 32 bits)
+RECURSIVE ModMagAt(_, _, _, _)
+ModMagAt(m, d, i, r) == IF i = 0 THEN r ELSE ModMagAt(m, d, i - 1, (r * Base + m[i]) % d)
+\* the residue of a BigInt in 0..d-1 (floored)
+ModSmall(x, d) == LET r == ModMagAt(x.mag, d, Len(x.mag), 0)
+                  IN IF x.sg >= 0 \/ r = 0 THEN r ELSE d - r
+\* b^k mod d in native arithmetic, b in 0..d-1, d <= 9999, k a TLC integer >= 0
+RECURSIVE PowModN(_, _, _)
+PowModN(b, k, d) == IF k = 0 THEN 1 % d
+                    ELSE LET h == PowModN(b, k \div 2, d)  sq == (h * h) % d
+                         IN IF k % 2 = 1 THEN (sq * b) % d ELSE sq
+ResiduesAgree(r, a, k) ==
+  \A i \in 1..Len(PowModuli) :
+     ModSmall(r, PowModuli[i]) = PowModN(ModSmall(a, PowModuli[i]), k, PowModuli[i])
+\* number of bits of a magnitude
+RECURSIVE BitsMag(_)
+BitsMag(m) == IF m = << >> THEN 0 ELSE 1 + BitsMag(DivSmallMag(m, 2).q)
+\* 2^((bits-1) k) <= |a|^k < 2^(bits k) and 10^(4 (L-1)) <= |r| < 10^(4 L), 3.321928 < log2(10) < 3.321929
+SizeBracket(r, a, k) ==
+  LET bits == FromInt(BitsMag(a.mag))  len == FromInt(Len(r.mag))  kk == FromInt(k)
+      m6 == FromInt(1000000)  f4 == FromInt(4)
+  IN /\ Less(Mul(Mul(f4, Sub(len, One)), FromInt(3321928)), Mul(Mul(bits, kk), m6))
+     /\ Less(Mul(Mul(Sub(bits, One), kk), m6), Mul(Mul(f4, len), FromInt(3321929)))
+SignOfPow(a, k) == IF a.sg >= 0 \/ k % 2 = 0 THEN a.sg * a.sg ELSE -1
+\* 10^j as limbs, written down (not multiplied out)
+P10T == <<1, 10, 100, 1000>>
+Pow10(j) == [sg |-> 1, mag |-> [i \in 1..(j \div 4) |-> 0] \o <<P10T[(j % 4) + 1]>>]
+IsTen(a) == a.mag = <<10>>
+PowOfTen(a, k) == IF a.sg > 0 \/ k % 2 = 0 THEN Pow10(k) ELSE Neg(Pow10(k))
+\* r is acceptable as a^k, |a| >= 2, k >= 1
+PowPlausible(r, a, k) ==
+  /\ r.sg = SignOfPow(a, k)
+  /\ IF IsTen(a) THEN r = PowOfTen(a, k)
+     ELSE ResiduesAgree(r, a, k) /\ SizeBracket(r, a, k)
 
 IsPermOf(p, s) ==
   /\ Len(p) = Len(s)
